@@ -28,7 +28,7 @@ RULE = ("Random grids of 2-12 daily/irregular timesteps of which ~85% carry an e
         "expanding. Non-trivial = fold strictly inside the grid with >= 2 valid starts or a refusal.")
 ASSUMPTIONS = ["the episode_length argument of reset() ('number of states') is not judged; the configured length is",
                "sampling_span cases only check membership, not reachability"]
-REQUIRED_CATS = ["events-added-then-rebuilt", "steps_delay:1", "steps_delay:2"]
+REQUIRED_CATS = ["events-added-then-rebuilt", "steps_delay:1", "steps_delay:2", "one-off-length-then-configured"]
 REQUIRED = ["C15:decisions-exact", "C15:start-valid", "C15:visits-contiguous", "C15:every-start-reachable", "C15:refused-when-none-fits",
             "C15:whole-fold", "C15:walk-forward"]
 TECHNIQUE = "runtime monitoring: visited timesteps (observer clock per call) compared with the fold's event-bearing steps; seeded reachability sweep"
@@ -97,8 +97,17 @@ def case(ctx, i, tier):
         valid = steps[:len(steps) - nlen] if len(steps) - nlen > 0 else []
         max_valid = max(max_valid, len(valid))
         reach = bool(valid) and span is None and 2 <= len(valid) <= 6
+        oneoff = {rng.randint(1, 3)} if rng.random() < 0.4 else ()
         for rep in range(DRAWS if reach else 25 if valid else 2):
             np.random.seed((ctx.np_seed + 7919 * rep + nlen) % (2 ** 32))
+            if rep in oneoff:
+                # a one-off episode of another length (the episode_length argument of reset): not judged itself,
+                # but it must not change the configured length of the episodes that follow
+                try:
+                    env.reset(fold, episode_length=rng.randint(1, max(1, len(steps))))
+                    ctx.cat("one-off-length-then-configured")
+                except Exception:
+                    pass
             try:
                 seq, k, over = visited_run(env, sink, fold, cap=len(grid) + 2)
             except Exception as ex:
